@@ -1550,3 +1550,20 @@ def _polyline_position_pending(repo, ob, failure):
 
 
 GENERATORS.insert(0, ("C10.pending.foreign", _polyline_position_pending))
+
+
+def _tail_text_kept(repo, ob, failure):
+    """character data following an element that renders nothing (false <if>, empty <loop>) is kept, as in the unrolled document"""
+    import re as _re
+    for doc, want in [('<svg><text>a<if test="0"><tspan>b</tspan></if>c</text></svg>', "<text>ac</text>"),
+                      ('<svg><text>a<loop count="0"><tspan>b</tspan></loop>c</text></svg>', "<text>ac</text>")]:
+        r = run_svgdx(repo, doc, args=("--no-auto-styles",))
+        if r["rc"] == 0 and want not in r["out"]:
+            m = _re.search(r"<text>.*?</text>", r["out"])
+            return {"input": doc, "args": ["--no-auto-styles"], "observed": m.group(0) if m else r["out"][-120:], "expected": want}
+    return None
+
+
+GENERATORS.insert(0, ("C16.tail.", _tail_text_kept))
+GENERATORS.insert(0, ("C19.tail.", _tail_text_kept))
+GENERATORS.insert(0, ("C03.tail.", _tail_text_kept))
